@@ -114,6 +114,13 @@ Theorem C08_split_guard_is : forall fx n st body newl masks sm,
 Proof. intros. reflexivity. Qed.
 Print Assumptions C08_split_guard_is.
 
+(* the boolean contract Model.LabelMapRun evaluates on every body split the server accepted in the
+   driver's histories implies the guard *)
+Theorem C08_split_guard_b_sound : forall st body newl masks sm,
+  split_guard_b st body newl masks sm = true -> split_guard st body newl masks sm.
+Proof. exact split_guard_b_sound. Qed.
+Print Assumptions C08_split_guard_b_sound.
+
 (* the body split alone: Consistent is kept (no bound on the block volume is needed) *)
 Theorem C08_consistent_split : forall st body newl masks sm st',
   Consistent st -> split_guard st body newl masks sm ->
